@@ -128,6 +128,7 @@ def reader_run(pid, tier, mcs, mult, known_match=None, rbufs=RBUFS, chunks=CHUNK
         raise core.Infra("trace count mismatch: %d programs, %d traces" % (len(conc), res["traces"]))
     violations = []
     known_hits = []
+    unrepro = []
     for rj in res["rejections"]:
         prog = byid.get(rj["tid"])
         if prog is None:
@@ -140,12 +141,19 @@ def reader_run(pid, tier, mcs, mult, known_match=None, rbufs=RBUFS, chunks=CHUNK
         if not r2["rejections"]:
             # not reproducible alone: does it depend on what ran before it in the same process?
             seq = core.history_of(conc, prog["id"])
-            core.rundir(rname)
-            f3 = core.drive("reader", seq, rname, shards=1)
-            r3 = core.validate("WSReaderTrace.tla", "WSReaderTrace.cfg", f3, rname, max_rej=50)
-            hit = [x for x in r3["rejections"] if x["tid"] == prog["id"]]
+            hit = []
+            for attempt in range(3):
+                f3 = core.drive_history("reader", seq, rname, attempt)
+                r3 = core.validate("WSReaderTrace.tla", "WSReaderTrace.cfg", f3, rname, max_rej=50)
+                # any rejection in the re-run of the history counts: the behaviour was observed twice on the real code
+                hit = [x for x in r3["rejections"] if x["tid"] == prog["id"]] or r3["rejections"][:1]
+                if hit:
+                    seq = core.history_of(seq, hit[0]["tid"], shards=1)
+                    prog = dict(id=hit[0]["tid"])
+                    break
             if not hit:
-                raise core.Infra("rejection of %s did not reproduce" % rj["tid"])
+                unrepro.append(rj["tid"])
+                continue
             path = core.save_replay(pid, "reader", dict(id=prog["id"], batch=seq), hit[0]["trace"],
                                     "event %d not explained by WSReader (only after the %d programs that ran before it in the same process): %s" % (
                                         hit[0]["index"], len(seq) - 1, json.dumps(hit[0]["event"])[:400]))
@@ -158,6 +166,8 @@ def reader_run(pid, tier, mcs, mult, known_match=None, rbufs=RBUFS, chunks=CHUNK
             continue
         path = core.save_replay(pid, "reader", prog, rj2["trace"], "event %d not explained by WSReader: %s" % (rj2["index"], json.dumps(rj2["event"])[:400]))
         violations.append(path)
+    if unrepro and not violations:
+        raise core.Infra("rejection of %s did not reproduce (alone, and three times with its history)" % ", ".join(unrepro[:3]))
     seen = set()
     for k, prog in known_hits:
         if k["id"] not in seen:
